@@ -52,6 +52,10 @@ def tree_hash(repo=None):
         with open(p, "rb") as f:
             h.update(f.read())
         h.update(b"\0")
+    # ... and of the extractors themselves: facts written by an older exporter are not reused
+    for p in sorted(glob.glob(os.path.join(VERIF, "engines", "*", "src", "*.rs"))):
+        with open(p, "rb") as f:
+            h.update(f.read())
     return h.hexdigest()[:16]
 
 
